@@ -34,7 +34,7 @@ class Unit:
                  entry=None, loops=None, kind="P", tier="quick", timeout=300,
                  unwind=None, unwindset=(), flags=(), defines=(), leak=False,
                  reach=0, note="", bound="", assumed=(), solver=None, extra_src=(),
-                 nochecks=False, rec=False, objbits=10, shards=1, late_unwind=None, resplit=0, drop=(), unwind_cut=(), no_overflow=False, smt_props=None, only_props=None, runner=None):
+                 nochecks=False, rec=False, objbits=10, shards=1, late_unwind=None, resplit=0, drop=(), unwind_cut=(), no_overflow=False, smt_props=None, only_props=None, runner=None, no_slice=False):
         self.name = name
         # props: {property_id: regex over obligation names that count for it}
         self.props = props if isinstance(props, dict) else {p: ".*" for p in props}
@@ -67,6 +67,7 @@ class Unit:
         self.drop = list(drop)
         self.unwind_cut = list(unwind_cut)
         self.no_overflow = no_overflow
+        self.no_slice = no_slice    # skip --slice-global-inits (units whose SMT back end is sensitive to formula shape)
         self.runner = runner        # python module under tools/ with run(u, scratch, REPO, VERIF) (static facts)
         self.only_props = only_props  # regex: decide only these obligations (quick-tier subset of a thorough unit)
         self.smt_props = smt_props   # regex: these obligations go to z3 with the FP theory, the rest to SAT
@@ -342,9 +343,10 @@ def run_unit(u, scratch, want_trace=True):
     # initialisers of static objects that the unit never reads (vorbisenc.c alone
     # carries megabytes of static tables) are sliced away: pure formula-size reduction
     gbs = os.path.join(d, "u.s.gb")
-    rc, out, err, dt, to = run(["goto-instrument", "--slice-global-inits", gbi, gbs], 600, log)
-    if rc == 0 and not to and os.path.exists(gbs):
-        gbi = gbs
+    if not u.no_slice:
+        rc, out, err, dt, to = run(["goto-instrument", "--slice-global-inits", gbi, gbs], 600, log)
+        if rc == 0 and not to and os.path.exists(gbs):
+            gbi = gbs
     flags = [] if u.nochecks else list(BASE_CHECKS)
     if u.no_overflow:
         flags = [f for f in flags if f not in ("--signed-overflow-check", "--pointer-overflow-check")]
